@@ -935,6 +935,8 @@ def gen_ftexts(rng, d, quick):
     t = ("struct", d)
     texts = []
     vals = d.values[:2] if quick else d.values[:4]
+    if quick and d.special:
+        vals = d.values[:1]
     strf = [i for i, (f, ft) in enumerate(d.fields) if ft[0] == "str"]
     intf = [i for i, (f, ft) in enumerate(d.fields) if ft[0] == "int"]
     optf = [i for i, (f, ft) in enumerate(d.fields) if ft[0] == "opt"]
@@ -1295,6 +1297,8 @@ def run_batch(chk, binary, scratch, name, decls, ftexts, res, model_ok, plain=()
         t = ("struct", d)
         if has_float(t):
             continue
+        if tag == "T":
+            continue                      # same text as the J record: judged by the oracle (exact text) only
         if tag in ("J", "T"):
             v = d.values[rec[2]]
             try:
